@@ -20,6 +20,7 @@ here; that the canonical satisfactions counted by `satEx` are real witnesses is 
 execution on every run of C02 (`C tablecheck`).
 -/
 import MsVerif.Lemmas.CompileCheck
+import MsVerif.Lemmas.ValidateCC
 
 namespace MsVerif.C08
 open MsVerif MsVerif.CC MsVerif.SatTable
@@ -347,6 +348,104 @@ example : trLiftOk (some 9) (.and [.atom (.key 1), .atom (.older 10)])
     (.thresh 1 [.atom (.key 9), .thresh 2 [.atom (.key 1), .atom (.older 10)]]) = true := by decide +kernel
 theorem unspendable_key_is_masked : trLiftOk none (.and [.atom (.key 1), .atom (.older 10)])
     (.thresh 1 [.atom (.key 9), .thresh 2 [.atom (.key 1), .atom (.older 10)]]) = false := by decide +kernel
+
+/-! ## T6  Policies for which no conforming output exists (`J refuses`) -/
+
+theorem mem_reps_canSign {L : List Atom} {W : World} (h : W ∈ reps L) (k : Nat)
+    (hk : Pol.Atom.key k ∉ L) : W.canSign k = false := by
+  unfold reps at h
+  obtain ⟨S, hS, h⟩ := List.mem_flatMap.mp h
+  obtain ⟨lt, _, h⟩ := List.mem_flatMap.mp h
+  obtain ⟨sq, _, rfl⟩ := List.mem_map.mp h
+  show S.contains (Pol.Atom.key k) = false
+  cases hc : S.contains (Pol.Atom.key k) with
+  | false => rfl
+  | true =>
+    exfalso
+    have hm : Pol.Atom.key k ∈ S := List.contains_iff_mem.mp hc
+    have hsub : ∀ (l : List Atom) (S : List Atom), S ∈ Pol.subsets l → ∀ a ∈ S, a ∈ l := by
+      intro l
+      induction l with
+      | nil => intro S hS a ha; simp [Pol.subsets] at hS; subst hS; simp at ha
+      | cons x xs ih =>
+        intro S hS a ha
+        rw [Pol.subsets] at hS
+        rcases List.mem_append.mp hS with h1 | h1
+        · exact List.mem_cons_of_mem _ (ih S h1 a ha)
+        · obtain ⟨T, hT, rfl⟩ := List.mem_map.mp h1
+          rcases List.mem_cons.mp ha with h2 | h2
+          · subst h2; exact List.mem_cons_self
+          · exact List.mem_cons_of_mem _ (ih T hT a h2)
+    have := hsub _ S hS _ hm
+    unfold nonLocks at this
+    rw [List.mem_eraseDups, List.mem_filter] at this
+    exact hk this.1
+
+/-- if the judge says "satisfiable without a signer", there IS a world in which no key at all
+can sign and the policy holds -/
+theorem siglessSatisfiable_sound (P : CPolicy) (h : siglessSatisfiable P = true) :
+    ∃ W : World, (∀ k, W.canSign k = false) ∧ Pol.holdsCW W P = true := by
+  unfold siglessSatisfiable at h
+  obtain ⟨W, hW, hP⟩ := List.any_eq_true.mp h
+  refine ⟨W, fun k => mem_reps_canSign hW k ?_, hP⟩
+  intro hm
+  have := (List.mem_filter.mp hm).2
+  simp [Pol.Atom.isKey] at this
+
+/-- … and then every output the checker's semantic part accepts is satisfiable WITHOUT ANY
+SIGNATURE in that world: no conforming (`signed`) output exists -/
+theorem sigless_policy_has_sigless_output (P : CPolicy) (out : Ms)
+    (hs : siglessSatisfiable P = true) (hc : checkSem P out = true) :
+    ∃ W : World, (∀ k, W.canSign k = false) ∧ satEx (availOfWorld W) out = true := by
+  obtain ⟨W, hk, hP⟩ := siglessSatisfiable_sound P hs
+  exact ⟨W, hk, by rw [← semantic_check_adequate P out hc W]; exact hP⟩
+
+/-- if the policy's truth depends on key `k`, every output the semantic check accepts mentions
+`k` — so a key of a kind the context forbids cannot be avoided -/
+theorem needed_key_occurs_in_output (P : CPolicy) (out : Ms) (k : Nat)
+    (hd : dependsOnKey P k = true) (hc : checkSem P out = true) :
+    Pol.Atom.key k ∈ msAtoms out := by
+  unfold dependsOnKey at hd
+  obtain ⟨W, _, hne⟩ := List.any_eq_true.mp hd
+  have hne' : Pol.holdsCW W P ≠ Pol.holdsCW (flipKey W k) P := by simpa using hne
+  cases hmem : decide (Pol.Atom.key k ∈ msAtoms out) with
+  | true => exact of_decide_eq_true hmem
+  | false =>
+    exfalso
+    have hnot : Pol.Atom.key k ∉ msAtoms out := of_decide_eq_false hmem
+    apply hne'
+    rw [semantic_check_adequate P out hc W, semantic_check_adequate P out hc (flipKey W k)]
+    apply satEx_congr
+    intro a ha
+    cases a with
+    | key j =>
+      show W.canSign j = (if j == k then !W.canSign k else W.canSign j)
+      have : j ≠ k := fun e => hnot (e ▸ ha)
+      simp [this]
+    | hash kind x => rfl
+    | after n => rfl
+    | older n => rfl
+
+/-- the class is not empty and not everything: `TRIVIAL` and `or(pk(0), older(10))` are
+satisfiable without a signer, `or(pk(0), and(pk(1), older(10)))` is not -/
+example : siglessSatisfiable .trivial = true := by decide +kernel
+example : siglessSatisfiable (.or [.atom (.key 0), .atom (.older 10)]) = true := by decide +kernel
+example : siglessSatisfiable polExFwd = false := by decide +kernel
+example : dependsOnKey polExFwd 1 = true := by decide +kernel
+example : dependsOnKey (.and [.atom (.key 1), .unsat]) 1 = false := by decide +kernel
+
+/-! ## T3'  `validateSane` IS the library's `validate(&Ctx::SANE)` as modelled for C12 -/
+
+/-- the sanity part of the checker is not a second, independent mirror: it equals the shared
+model of `Miniscript::validate` (Model/Validate.lean, tied to the library by C12) with the
+context's `SANE` parameters (C12's `validateSane_eq_validate`) -/
+theorem checkCompile_validates_like_the_library (env : KeyEnv) (P : CPolicy) (ctx : Ctx) (out : Ms)
+    (ty : Ty) (hfit : FitsUsize env ctx out) (h : checkCompile env P ctx out ty = true) :
+    isOk (validate env (ccKeys env) ctx ctx.SANE out) = true := by
+  unfold checkCompile at h
+  simp only [Bool.and_eq_true] at h
+  rw [← validateSane_eq_validate env ctx out hfit]
+  exact h.1.2
 
 /-! ## Non-vacuity and sensitivity
 
